@@ -335,7 +335,7 @@ impl rustls::client::danger::ServerCertVerifier for Capture {
         _o: &[u8],
         _t: rustls::pki_types::UnixTime,
     ) -> Result<rustls::client::danger::ServerCertVerified, rustls::Error> {
-        *self.0.lock().unwrap() = Some(end_entity.as_ref().to_vec());
+        *self.0.lock().unwrap_or_else(|p| p.into_inner()) = Some(end_entity.as_ref().to_vec());
         Ok(rustls::client::danger::ServerCertVerified::assertion())
     }
     fn verify_tls12_signature(
@@ -415,7 +415,7 @@ fn handshake(server_cfg: &Arc<rustls::ServerConfig>, sni: &str) -> Option<Shake>
                 }
             }
         }
-        if let Some(d) = cap.0.lock().unwrap().clone() {
+        if let Some(d) = cap.0.lock().unwrap_or_else(|p| p.into_inner()).clone() {
             return Some(Shake::Cert(d));
         }
         if err.is_some() || !progressed {
@@ -474,7 +474,11 @@ impl Impl {
     }
     /// `<wildcard lookup>/<exact lookup>/<served>/<names_for_sni>` for one probe
     fn probe(&self, n: &[u8]) -> (String, Option<usize>, bool) {
-        let r = self.res.0.lock().unwrap();
+        // the lookups are sozu code: a panic there is reported by the caller as a finding
+        catch_unwind(AssertUnwindSafe(|| self.probe_inner(n))).unwrap_or_else(|_| ("PANIC".into(), None, false))
+    }
+    fn probe_inner(&self, n: &[u8]) -> (String, Option<usize>, bool) {
+        let r = self.res.0.lock().unwrap_or_else(|p| p.into_inner());
         let kv = |x: Option<&(Vec<u8>, Fingerprint)>| match x {
             None => "-".to_string(),
             Some((k, fp)) => format!("{}@{}", self.id_of(fp), hx(k)),
@@ -645,11 +649,43 @@ fn authority_variants(rng: &mut Rng, base: &str) -> String {
     a
 }
 
+// ------------------------------------------------------------ inconclusive --
+//
+// A case whose *set-up* failed (no ephemeral port for the worker's listener or
+// for a client socket, the worker did not start or does not answer its command
+// channel, a panic of the harness itself) says nothing about the property: it is
+// retried, then counted as `inconclusive` in the distribution, and fails the run
+// (class `harness-inconclusive`) only when more than 5 % of the cases end so.
+
+static CASES_RUN: std::sync::atomic::AtomicU64 = std::sync::atomic::AtomicU64::new(0);
+static CASES_INCONCLUSIVE: std::sync::atomic::AtomicU64 = std::sync::atomic::AtomicU64::new(0);
+
+fn inconclusive(ops: &[String], why: &str) -> ImplRun {
+    CASES_INCONCLUSIVE.fetch_add(1, std::sync::atomic::Ordering::SeqCst);
+    let kind = why.split(':').next().unwrap_or("other").to_string();
+    ImplRun {
+        out: vec!["inconclusive".to_string(); ops.len()],
+        oracle: vec![],
+        tags: vec!["inconclusive".into(), format!("inconclusive:{kind}")],
+        nontrivial: false,
+    }
+}
+
+fn panic_text(e: Box<dyn std::any::Any + Send>) -> String {
+    if let Some(s) = e.downcast_ref::<&str>() {
+        s.to_string()
+    } else if let Some(s) = e.downcast_ref::<String>() {
+        s.clone()
+    } else {
+        "panic".into()
+    }
+}
+
 /// in end-to-end mode the worker's answer to a certificate command carries no
 /// fingerprint: only what the TLS client sees (the fields after ` | `, which
 /// never contain `/` in that mode) is compared
 fn lines_agree_any(a: &str, b: &str) -> bool {
-    if a == b {
+    if a == b || a == "inconclusive" {
         return true;
     }
     match (a.split_once(" | "), b.split_once(" | ")) {
@@ -943,6 +979,18 @@ impl Area for Tls {
             verif_harness::rig::silence_worker_panics();
             return TlsE2e.run_impl(ops);
         }
+        CASES_RUN.fetch_add(1, std::sync::atomic::Ordering::SeqCst);
+        // every call into sozu is under its own catch_unwind below (a panic there is a
+        // finding); what escapes to here is a panic of the harness
+        match catch_unwind(AssertUnwindSafe(|| self.run_inproc(ops))) {
+            Ok(r) => r,
+            Err(e) => inconclusive(ops, &format!("harness-panic: {}", panic_text(e))),
+        }
+    }
+}
+
+impl Tls {
+    fn run_inproc(&self, ops: &[String]) -> ImplRun {
         let mut r = ImplRun::default();
         let a = assets();
         let mut im = Impl::new();
@@ -1044,7 +1092,7 @@ impl Area for Tls {
                             certificate: cert_and_key(asset, &names, flags.contains('o')),
                             expired_at: if flags.contains('e') { None } else { Some(exp) },
                         };
-                        let out = im.res.0.lock().unwrap().add_certificate(&add);
+                        let out = im.res.0.lock().unwrap_or_else(|p| p.into_inner()).add_certificate(&add);
                         match out {
                             Ok(fp) => {
                                 if reference.loaded.contains_key(&id) {
@@ -1071,7 +1119,7 @@ impl Area for Tls {
                             },
                             expired_at: Some(1),
                         };
-                        match im.res.0.lock().unwrap().add_certificate(&add) {
+                        match im.res.0.lock().unwrap_or_else(|p| p.into_inner()).add_certificate(&add) {
                             Ok(fp) => format!("fp {}", im.id_of(&fp)),
                             Err(_) => "err".into(),
                         }
@@ -1091,7 +1139,7 @@ impl Area for Tls {
                                 if !fr.id.map(|i| reference.loaded.contains_key(&i)).unwrap_or(false) {
                                     r.tags.push("rm:absent".into());
                                 }
-                                let out = im.res.0.lock().unwrap().remove_certificate(&fp);
+                                let out = im.res.0.lock().unwrap_or_else(|p| p.into_inner()).remove_certificate(&fp);
                                 if let Some(id) = fr.id {
                                     reference.remove(id);
                                 }
@@ -1115,7 +1163,7 @@ impl Area for Tls {
                             r.tags.push("repl:idempotent".into());
                         } else if old_id.is_none() {
                             r.tags.push(if fr.decodes { "repl:empty-old".into() } else { "repl:unparsable-old".into() });
-                        } else if !reference.loaded.contains_key(&old_id.unwrap()) {
+                        } else if !old_id.map(|o| reference.loaded.contains_key(&o)).unwrap_or(false) {
                             r.tags.push("repl:absent-old".into());
                         }
                         if reference.loaded.contains_key(&id) && old_id != Some(id) {
@@ -1129,12 +1177,12 @@ impl Area for Tls {
                                 old_fingerprint: old_str.clone(),
                                 new_expired_at: Some(exp),
                             };
-                            let out = im.res.0.lock().unwrap().replace_certificate(&rep);
+                            let out = im.res.0.lock().unwrap_or_else(|p| p.into_inner()).replace_certificate(&rep);
                             if out.is_ok() {
                                 reference.replace(old_id, id, &names, exp);
                                 // an acknowledged replace leaves the new certificate loaded (replacing
                                 // a certificate that is not loaded by itself is an acknowledged no-op)
-                                if reference.loaded.contains_key(&id) && im.res.0.lock().unwrap().get_certificate(&asset.fp).is_none() {
+                                if reference.loaded.contains_key(&id) && im.res.0.lock().unwrap_or_else(|p| p.into_inner()).get_certificate(&asset.fp).is_none() {
                                     r.oracle.push(("acknowledged-replace-unloads-certificate".into(), format!("replace_certificate(old = {:?}, new = certificate {id}) answered Ok but certificate {id} is not in the store", old_str)));
                                 }
                             }
@@ -1153,12 +1201,12 @@ impl Area for Tls {
                                 Ok(asset.fp.clone())
                             } else {
                                 let add = AddCertificate { address: addr, certificate: ck, expired_at: Some(exp) };
-                                let out = im.res.0.lock().unwrap().add_certificate(&add);
+                                let out = im.res.0.lock().unwrap_or_else(|p| p.into_inner()).add_certificate(&add);
                                 if out.is_ok() {
                                     reference.add(id, &names, exp);
                                     mid_dump = Some((grid.iter().map(|n| im.probe(n).0).collect(), reference.clone()));
                                     if let Ok(ofp) = Fingerprint::from_str(&old_str) {
-                                        let _ = im.res.0.lock().unwrap().remove_certificate(&ofp);
+                                        let _ = im.res.0.lock().unwrap_or_else(|p| p.into_inner()).remove_certificate(&ofp);
                                         if let Some(o) = old_id {
                                             reference.remove(o);
                                         }
@@ -1186,7 +1234,7 @@ impl Area for Tls {
                             old_fingerprint: old_id.and_then(|o| a.certs.get(o)).map(|x| x.fp.to_string()).unwrap_or_else(|| "zz".into()),
                             new_expired_at: Some(1),
                         };
-                        match im.res.0.lock().unwrap().replace_certificate(&rep) {
+                        match im.res.0.lock().unwrap_or_else(|p| p.into_inner()).replace_certificate(&rep) {
                             Ok(fp) => format!("fp {}", im.id_of(&fp)),
                             Err(_) => "err".into(),
                         }
@@ -1278,8 +1326,11 @@ impl Area for Tls {
             let mut final_cov = vec![];
             for n in &grid {
                 let (f, sid, dangling) = im.probe(n);
-                fields.push(f);
                 let ns = String::from_utf8_lossy(n);
+                if f == "PANIC" {
+                    r.oracle.push(("resolver-lookup-panics".into(), format!("{ns}: domain_lookup / names_for_sni panics")));
+                }
+                fields.push(f);
                 let allowed = reference.allowed(n);
                 final_cov.push(sid.is_some());
                 if dangling {
@@ -1364,7 +1415,14 @@ impl Area for Tls {
                 }
                 let (_, sid, dangling) = im.probe(n);
                 let ns = String::from_utf8_lossy(n).to_string();
-                match handshake(&im.cfg, &ns) {
+                let shaken = match catch_unwind(AssertUnwindSafe(|| handshake(&im.cfg, &ns))) {
+                    Ok(x) => x,
+                    Err(e) => {
+                        r.oracle.push(("resolve-panics".into(), format!("{ns}: handshake panics: {}", panic_text(e))));
+                        None
+                    }
+                };
+                match shaken {
                     None => {}
                     Some(Shake::Cert(der)) => {
                         r.tags.push("handshake".into());
@@ -1420,11 +1478,23 @@ use std::net::{SocketAddr, TcpListener, TcpStream};
 use std::time::Duration;
 use verif_harness::rig::{cluster, Health, Worker, WorkerOpts};
 
-fn global_backend() -> SocketAddr {
-    static B: OnceLock<SocketAddr> = OnceLock::new();
-    *B.get_or_init(|| {
-        let l = TcpListener::bind("127.0.0.1:0").expect("backend");
-        let addr = l.local_addr().unwrap();
+fn global_backend() -> Result<SocketAddr, String> {
+    static B: Mutex<Option<SocketAddr>> = Mutex::new(None);
+    let mut g = B.lock().unwrap_or_else(|p| p.into_inner());
+    if let Some(a) = *g {
+        return Ok(a);
+    }
+    let mut last = String::new();
+    for attempt in 0..8u64 {
+        let bound = TcpListener::bind("127.0.0.1:0").and_then(|l| l.local_addr().map(|a| (l, a)));
+        let (l, addr) = match bound {
+            Ok(x) => x,
+            Err(e) => {
+                last = e.to_string();
+                std::thread::sleep(Duration::from_millis(50 * (attempt + 1)));
+                continue;
+            }
+        };
         std::thread::spawn(move || {
             for s in l.incoming() {
                 let Ok(mut s) = s else { continue };
@@ -1442,18 +1512,32 @@ fn global_backend() -> SocketAddr {
                 });
             }
         });
-        addr
-    })
+        *g = Some(addr);
+        return Ok(addr);
+    }
+    Err(format!("backend-bind: {last}"))
 }
 
 /// TLS connect to the worker; the leaf certificate presented, and (when a
 /// request is given) the status code of the answer.
+/// `Err(TRANSIENT…)`: the client socket could not even be set up (no ephemeral
+/// port or descriptor: EADDRINUSE / EADDRNOTAVAIL / EMFILE ..., after retries) -> the case is inconclusive.
+/// Any other `Err` is an observation (refused connection, handshake failure).
+const TRANSIENT: &str = "client-socket: ";
+
 fn tls_probe(addr: SocketAddr, sni: &str, request: Option<&str>) -> Result<(Vec<u8>, Option<u16>), String> {
-    // one retry: the box is shared and a probe may hit a scheduling hiccup
-    match tls_probe_once(addr, sni, request) {
-        Ok((d, st)) if request.is_none() || st.is_some() => Ok((d, st)),
-        _ => tls_probe_once(addr, sni, request),
+    let mut last = Err("no attempt".to_string());
+    for attempt in 0..6u64 {
+        last = tls_probe_once(addr, sni, request);
+        match &last {
+            Ok((_, st)) if request.is_none() || st.is_some() => return last,
+            Err(e) if e.starts_with(TRANSIENT) => std::thread::sleep(Duration::from_millis(40 * (attempt + 1))),
+            // one retry for anything else: the box is shared and a probe may hit a scheduling hiccup
+            _ if attempt >= 1 => return last,
+            _ => {}
+        }
     }
+    last
 }
 
 fn tls_probe_once(addr: SocketAddr, sni: &str, request: Option<&str>) -> Result<(Vec<u8>, Option<u16>), String> {
@@ -1468,19 +1552,28 @@ fn tls_probe_once(addr: SocketAddr, sni: &str, request: Option<&str>) -> Result<
     ccfg.alpn_protocols = vec![b"http/1.1".to_vec()];
     let name = rustls::pki_types::ServerName::try_from(sni.to_string()).map_err(|e| e.to_string())?;
     let mut conn = rustls::ClientConnection::new(Arc::new(ccfg), name).map_err(|e| e.to_string())?;
-    let mut stream = TcpStream::connect_timeout(&addr, Duration::from_secs(2)).map_err(|e| e.to_string())?;
-    stream.set_read_timeout(Some(Duration::from_secs(3))).ok();
-    stream.set_write_timeout(Some(Duration::from_secs(3))).ok();
+    let mut stream = TcpStream::connect_timeout(&addr, Duration::from_secs(5)).map_err(|e| {
+        // refused / timed out / reset say something about the listener; anything else
+        // (EADDRINUSE, EADDRNOTAVAIL, EMFILE, ENFILE, ENOBUFS, ...) is the client's own socket
+        use std::io::ErrorKind as K;
+        if matches!(e.kind(), K::ConnectionRefused | K::TimedOut | K::ConnectionReset | K::ConnectionAborted) {
+            format!("connect: {e}")
+        } else {
+            format!("{TRANSIENT}{e}")
+        }
+    })?;
+    stream.set_read_timeout(Some(Duration::from_secs(10))).ok();
+    stream.set_write_timeout(Some(Duration::from_secs(10))).ok();
     stream.set_nodelay(true).ok();
     while conn.is_handshaking() {
         if let Err(e) = conn.complete_io(&mut stream) {
-            return match cap.0.lock().unwrap().clone() {
+            return match cap.0.lock().unwrap_or_else(|p| p.into_inner()).clone() {
                 Some(d) => Ok((d, None)),
                 None => Err(format!("handshake: {e}")),
             };
         }
     }
-    let der = cap.0.lock().unwrap().clone().ok_or("no certificate")?;
+    let der = cap.0.lock().unwrap_or_else(|p| p.into_inner()).clone().ok_or("no certificate")?;
     let Some(req) = request else {
         conn.send_close_notify();
         let _ = conn.complete_io(&mut stream);
@@ -1659,6 +1752,39 @@ impl Area for TlsE2e {
             // replay of an in-process case
             return Tls.run_impl(ops);
         }
+        CASES_RUN.fetch_add(1, std::sync::atomic::Ordering::SeqCst);
+        match catch_unwind(AssertUnwindSafe(|| run_e2e(ops))) {
+            Ok(Ok(r)) => r,
+            Ok(Err(why)) => inconclusive(ops, &why),
+            Err(e) => inconclusive(ops, &format!("harness-panic: {}", panic_text(e))),
+        }
+    }
+}
+
+/// one set-up attempt: worker, HTTPS listener, cluster, backend, one frontend per host
+fn e2e_setup(grid: &[Vec<u8>]) -> Result<(Worker, SocketAddr), String> {
+    let backend = global_backend()?;
+    let opts = WorkerOpts { request_deadline: Duration::from_secs(10), ..WorkerOpts::default() };
+    let mut wk = Worker::start(opts).map_err(|e| format!("worker-start: {e:?}"))?;
+    let l = wk.add_https_listener().map_err(|e| format!("listener: {e:?}"))?;
+    wk.add_cluster(cluster("c0")).map_err(|e| format!("cluster: {e:?}"))?;
+    wk.add_backend("c0", "c0-0", backend).map_err(|e| format!("backend: {e:?}"))?;
+    let mut hosts: BTreeSet<String> = grid.iter().map(|g| String::from_utf8_lossy(g).to_string()).collect();
+    for b in ["example.org", "ex.io"] {
+        for p in ["", "www.", "api.", "zz.", "a.api.", "q.a.api."] {
+            hosts.insert(format!("{p}{b}"));
+        }
+    }
+    hosts.insert("other.test".into());
+    for hname in hosts {
+        wk.add_https_frontend(l, &hname, "/", "c0").map_err(|e| format!("frontend: {hname}: {e:?}"))?;
+    }
+    Ok((wk, l))
+}
+
+/// `Err(why)` = the case is inconclusive (set-up failure after retries)
+fn run_e2e(ops: &[String]) -> Result<ImplRun, String> {
+    {
         let mut r = ImplRun::default();
         let a = assets();
         let mut reference = Reference::default();
@@ -1671,32 +1797,24 @@ impl Area for TlsE2e {
             if w[0] == "newe" {
                 grid = w[1..].iter().map(|x| unhex(x)).collect();
                 reference = Reference::default();
-                let started = (|| -> Result<(Worker, SocketAddr), String> {
-                    let mut wk = Worker::start(WorkerOpts::default()).map_err(|e| format!("{e:?}"))?;
-                    let l = wk.add_https_listener().map_err(|e| format!("{e:?}"))?;
-                    wk.add_cluster(cluster("c0")).map_err(|e| format!("{e:?}"))?;
-                    wk.add_backend("c0", "c0-0", global_backend()).map_err(|e| format!("{e:?}"))?;
-                    let mut hosts: BTreeSet<String> = grid.iter().map(|g| String::from_utf8_lossy(g).to_string()).collect();
-                    for b in ["example.org", "ex.io"] {
-                        for p in ["", "www.", "api.", "zz.", "a.api.", "q.a.api."] {
-                            hosts.insert(format!("{p}{b}"));
-                        }
-                    }
-                    hosts.insert("other.test".into());
-                    for hname in hosts {
-                        wk.add_https_frontend(l, &hname, "/", "c0").map_err(|e| format!("{hname}: {e:?}"))?;
-                    }
-                    Ok((wk, l))
-                })();
-                match started {
-                    Ok(x) => worker = Some(x),
-                    Err(e) => {
-                        r.oracle.push(("rig-setup".into(), e));
-                        return r;
-                    }
+                if let Some((mut old, _)) = worker.take() {
+                    old.stop();
                 }
-                let l = worker.as_ref().unwrap().1;
-                let fields: Vec<String> = grid.iter().map(|n| served_field(l, n, a)).collect();
+                let mut started = Err("setup: no attempt".to_string());
+                for attempt in 0..4u64 {
+                    started = e2e_setup(&grid);
+                    if started.is_ok() {
+                        break;
+                    }
+                    r.tags.push("setup-retry".into());
+                    std::thread::sleep(Duration::from_millis(100 * (attempt + 1)));
+                }
+                let (wk, l) = started.map_err(|e| format!("setup: {e}"))?;
+                worker = Some((wk, l));
+                let mut fields = vec![];
+                for n in &grid {
+                    fields.push(served_field(l, n, a)?);
+                }
                 r.out.push(format!("new | {}", fields.join(" ")));
                 continue;
             }
@@ -1771,7 +1889,9 @@ impl Area for TlsE2e {
                     let au = String::from_utf8_lossy(&unhex(w[2])).to_string();
                     let req = format!("GET / HTTP/1.1\r\nHost: {au}\r\nConnection: close\r\n\r\n");
                     match tls_probe(l, &sni, Some(&req)) {
+                        Err(e) if e.starts_with(TRANSIENT) => return Err(e),
                         Err(e) => {
+                            // the listener is configured: not getting through the handshake is an observation
                             r.out.push(format!("tls-error {e}"));
                         }
                         Ok((_der, status)) => {
@@ -1815,11 +1935,16 @@ impl Area for TlsE2e {
                 let class = if bad && matches!(w[0], "add" | "repl") { "certificate-name-panics-worker" } else { "worker-died" };
                 r.oracle.push((class.into(), format!("e2e `{}` with names {:?}: worker thread dead: {m:?}", w[0], names.iter().map(|n| String::from_utf8_lossy(n).to_string()).collect::<Vec<_>>())));
                 r.out.push("panic".into());
-                return r;
+                return Ok(r);
+            }
+            if res.starts_with("rig:") {
+                // the worker thread is alive but its command channel gave no answer in 10 s
+                // (or failed): nothing can be said about this history
+                return Err(format!("worker-unresponsive: `{}`: {res}", w[0]));
             }
             let mut fields = vec![];
             for n in &grid {
-                let f = served_field(l, n, a);
+                let f = served_field(l, n, a)?;
                 let ns = String::from_utf8_lossy(n);
                 let allowed = reference.allowed(n);
                 if let Some(id) = f.strip_prefix('c').and_then(|x| x.parse::<usize>().ok()) {
@@ -1869,24 +1994,23 @@ impl Area for TlsE2e {
             wk.stop();
         }
         r.nontrivial = after;
-        r
+        Ok(r)
     }
 }
 
-fn served_field(l: SocketAddr, n: &[u8], a: &Assets) -> String {
+fn served_field(l: SocketAddr, n: &[u8], a: &Assets) -> Result<String, String> {
     let ns = String::from_utf8_lossy(n).to_string();
     match tls_probe(l, &ns, None) {
-        Ok((der, _)) => {
-            if der == a.default_der {
-                "D".into()
-            } else {
-                match a.certs.iter().position(|c| c.der == der) {
-                    Some(i) => format!("c{i}"),
-                    None => "c?".into(),
-                }
+        Ok((der, _)) => Ok(if der == a.default_der {
+            "D".into()
+        } else {
+            match a.certs.iter().position(|c| c.der == der) {
+                Some(i) => format!("c{i}"),
+                None => "c?".into(),
             }
-        }
-        Err(e) => format!("N({})", e.replace(' ', "_")),
+        }),
+        Err(e) if e.starts_with(TRANSIENT) => Err(e),
+        Err(e) => Ok(format!("N({})", e.replace(' ', "_"))),
     }
 }
 
@@ -1911,6 +2035,34 @@ fn selfcheck() -> Vec<String> {
     notes
 }
 
+/// inconclusive cases never fail a run by themselves; more than 5 % of them do
+/// (class `harness-inconclusive`): the run then says too little.
+fn finish(args: &Args, code: i32) -> i32 {
+    use std::sync::atomic::Ordering::SeqCst;
+    let (n, inc) = (CASES_RUN.load(SeqCst), CASES_INCONCLUSIVE.load(SeqCst));
+    if inc > 0 {
+        println!("tls: {inc} of {n} case evaluations inconclusive (set-up failures / harness panics)");
+    }
+    if args.replay.is_some() || args.out.is_empty() {
+        return code;
+    }
+    let Ok(txt) = std::fs::read_to_string(&args.out) else { return code };
+    let Ok(mut v) = serde_json::from_str::<serde_json::Value>(&txt) else { return code };
+    v["extra"] = serde_json::json!({"case_evaluations": n, "inconclusive": inc});
+    let mut code = code;
+    if n > 0 && inc * 100 > n * 5 {
+        println!("FAIL oracle harness-inconclusive {inc} of {n} case evaluations inconclusive (> 5 %)");
+        if let Some(f) = v["failures"].as_array_mut() {
+            f.push(serde_json::json!({"kind": "oracle", "class": "harness-inconclusive",
+                "detail": format!("{inc} of {n} case evaluations were inconclusive (set-up failures / harness panics), more than 5 %"),
+                "case": -1, "ops": [], "impl_out": [], "model_out": []}));
+        }
+        code = 1;
+    }
+    let _ = std::fs::write(&args.out, serde_json::to_string_pretty(&v).unwrap_or(txt));
+    code
+}
+
 fn main() {
     std::panic::set_hook(Box::new(|_| {}));
     let args = parse_args();
@@ -1927,10 +2079,13 @@ fn main() {
         }
         std::process::exit(1);
     }
-    if args.extra.get("mode").map(|m| m == "e2e").unwrap_or(false) {
+    let e2e = args.extra.get("mode").map(|m| m == "e2e").unwrap_or(false);
+    let code = if e2e {
         verif_harness::rig::silence_worker_panics();
         let _ = global_backend();
-        std::process::exit(run_area(&TlsE2e, &args));
-    }
-    std::process::exit(run_area(&Tls, &args));
+        run_area(&TlsE2e, &args)
+    } else {
+        run_area(&Tls, &args)
+    };
+    std::process::exit(finish(&args, code));
 }
